@@ -18,7 +18,7 @@ TRead(e) == /\ e.op = "r"
             \* AL status register: bits 0..3 state, bit 4 error indicator, nothing else
             /\ tst' = e.raw % 16 /\ terr' = ((e.raw \div 16) % 2 = 1)
 TWriteEv(e) == /\ e.op = "w"
-               /\ IF e.val = AckInit THEN \E d \in 0 .. K : MAck(d)
+               /\ IF e.val = AckInit THEN \E d \in 0 .. K, early \in BOOLEAN : MAck(d, early)
                   ELSE \E d \in 0 .. K : MRequest(e.val, d)
 TRet(e) == e.op = "ret" /\ MReturn
 TRaise(e) == e.op = "raise" /\ MRaise
